@@ -132,12 +132,20 @@ def gen_scenario(rng, conflict=None):
             ({"op": "add"}, {"op": "add"}),
             ({"op": "add"}, {"op": "query"}),
             ({"op": "delete", "pre": live1}, {"op": "query"}),
+            # multi-step conflicts: an attendance pass (which works on a snapshot and cleans up at its end) against a consumer
+            # that deregisters, registers again and subscribes anew while the pass is under way
+            ([{"op": "attend"}], [{"op": "dereg_c2"}, {"op": "reg_c2"}, {"op": "subscribe"}]),
+            ([{"op": "attend"}, {"op": "attend"}], [{"op": "dereg_c2"}, {"op": "reg_c2"}, {"op": "subscribe"}, {"op": "add"}]),
         ]
         pair = pairs[conflict % len(pairs)]
         if rng.random() < 0.5:
             pair = pair[::-1]
-        actors[0] = [dict(pair[0])] + [o for o in actors[0][:2] if "own" not in o]
-        actors[1] = [dict(pair[1])] + [o for o in actors[1][:2] if "own" not in o]
+        if isinstance(pair[0], list):
+            actors[0], actors[1] = [dict(o) for o in pair[0]], [dict(o) for o in pair[1]]
+            actors[2:] = [[{"op": rng.choice(("add", "query", "attend"))}] for _ in actors[2:3]]
+        else:
+            actors[0] = [dict(pair[0])] + [o for o in actors[0][:2] if "own" not in o]
+            actors[1] = [dict(pair[1])] + [o for o in actors[1][:2] if "own" not in o]
         for a in actors:
             for o in a:
                 if "pre" in o and o["op"] in ("update", "delete"):
@@ -727,7 +735,7 @@ def one(spec, plan, policy, res, mode, log_from=None, instr_points=True):
 
 
 # -------------------------------------------------------------------------------------------------- driver
-N_CONFLICT_PAIRS = 14
+N_CONFLICT_PAIRS = 16
 BUDGET = {"quick": {"sync": 500, "instr": 500, "random": 200}, "thorough": {"sync": 10000, "instr": 6000, "random": 4000}}
 NSHARD = {"quick": {"sync": 2, "instr": 3, "random": 2}, "thorough": {"sync": 4, "instr": 6, "random": 4}}
 # the directed two-actor conflicts are small: one shard per mode explores them
@@ -746,7 +754,12 @@ def shards(tier, seed):
     for j in range(N_CONFLICT_PAIRS * (1 if tier == "quick" else 3)):
         spec = gen_scenario(rng, conflict=j)
         for mode in ("sync", "instr", "random"):
-            out.append({"spec": spec, "mode": mode, "shard": 0, "nshards": 1, "tier": tier, "seed": seed * 1000 + 500 + j, "budget": BUDGET_C[tier][mode]})
+            multi = any(len(a) >= 3 for a in spec["actors"][:2]) and spec["actors"][0][0]["op"] in ("attend", "dereg_c2")
+            # the multi-step conflicts need three context switches at the right places: a larger budget, split over shards
+            nsh = 4 if multi and mode != "instr" else 1
+            for sh in range(nsh):
+                out.append({"spec": spec, "mode": mode, "shard": sh, "nshards": nsh, "tier": tier, "seed": seed * 1000 + 500 + j,
+                            "budget": BUDGET_C[tier][mode] * (6 if multi and mode != "instr" else 1)})
     return out
 
 
